@@ -9,6 +9,7 @@ import Mfi.Model.Admin
 import Mfi.Lemmas.AccL
 import Mfi.Lemmas.ResL
 import Mfi.Props.C10
+import Mfi.Props.C08
 import Mfi.Model.Interest
 namespace Mfi.Props.C12
 open Mfi Mfi.Admin Mfi.Gen
@@ -254,6 +255,17 @@ theorem deleverage_cannot_worsen_health {pre : Mfi.Risk.PreCache} {ps : List Mfi
     (h : Mfi.Risk.endDeleverage pre ps = .ok (seized, repaid)) :
     ∃ cm, Mfi.Risk.components ps .maint = .ok cm ∧ pre.aMaint - pre.lMaint ≤ cm.assets - cm.liabs :=
   Mfi.Props.C10.end_deleverage_spec h
+
+/-- **each role acts on the banks of ITS group only**: every existing bank account of every instruction (the named
+    single-bank permissionless cranks excepted) carries `has_one = group`, so the group whose admin fields authorise an
+    administrative instruction is the group the written bank belongs to (C08.banks_bound_to_group over the regenerated
+    constraint table; the cross-group cases are replayed through real dispatch by the C12 monitor) -/
+theorem admin_banks_bound_to_group :
+    ∀ s ∈ Mfi.Gen.Acc.allStructs, ∀ f ∈ Mfi.Gen.Acc.fields s, f.ty = .loader .bank → f.isInit = false →
+      (f.hasOne.any Mfi.Props.C08.groupish = true ∨
+       s ∈ [.MigrateCurve, .InitBankMetadata, .LendingAccountSettleEmissions, .PropagateStakedSettings,
+            .KaminoHarvestReward, .KaminoInitObligation, .SolendInitObligation, .DriftHarvestReward, .DriftInitUser]) :=
+  Mfi.Props.C08.banks_bound_to_group
 
 /-! ### known finding C12-F3: the permissionless `migrate_curve` can re-price a bank whose settings are frozen
 
